@@ -1,24 +1,24 @@
 (* Events.v -- model of the progress-event machinery of py7zr extraction (property C18).
 
-   What is modelled (py7zr/py7zr.py, line numbers of the pinned tree):
-   - SevenZipFile._extract            l.563  q.put(("pre",..)) before any worker runs,
-                                      l.633  q.put(("post",..)) after Worker.extract returned (all workers joined);
-   - Worker.extract (1273-1340)       which lists of members are walked by which thread:
+   What is modelled (py7zr/py7zr.py; line numbers of /repo at commit 001b922, they move with unrelated fixes):
+   - SevenZipFile._extract            l.582  q.put(("pre",..)) before any worker runs,
+                                      l.652  q.put(("post",..)) after Worker.extract returned (all workers joined);
+   - Worker.extract (1293-1368)       which lists of members are walked by which thread:
                                       no streams: the empty-stream members on the calling thread;
                                       one folder: ALL members of the archive on the calling thread;
                                       several folders: the empty-stream members first (calling thread), then one
                                       walk per folder that has at least one registered target -- sequentially when
                                       not `parallel` (password / file object given), one thread per folder otherwise;
-   - Worker._extract_single (1369-1449) per member f of the walked list: "s" (name, compressed), then -- only when f
+   - Worker._extract_single (1398-1475) per member f of the walked list: "s" (name, compressed), then -- only when f
                                       has a registered target and is not an empty stream -- Worker.decompress WITH q,
                                       then "e" (name, str(f.uncompressed)).  Members without a target get s and e too;
-                                      _check() decompresses them WITHOUT q: no "u";
-   - Worker.decompress (1486-1505)    the update loop, with the clock as an input;
-   - SevenZipFile.reporter (1042-1065) and close() (1156-1162): FIFO consumer, None sentinel, join(1).
+                                      _check() (1477) decompresses them WITHOUT q: no "u";
+   - Worker.decompress (1487-1535)    the update loop (1516-1531), with the clock as an input;
+   - SevenZipFile.reporter (1062-1085) and close() (1176-1182): FIFO consumer, None sentinel, join(1).
 
    The queue is FIFO; an interleaving of the worker threads is a list of worker indices (who enqueues next).
    Events carry the member id as a ghost field so that theorems can speak about "the events of member i";
-   the real events carry only what `erase` keeps.
+   the real events carry only what the harness's ev_erase keeps (kind, name, byte count).
 
    NOT modelled: the member-numbering of ArchiveFileList (offset + index) -- the model takes "has a registered target"
    per member as data; exceptions inside workers (the quantifier of C18 ranges over intact archives).
